@@ -28,12 +28,15 @@ type Slicer struct {
 	MaxDepth int
 	// LiftParams: when a Parameter of a repo function is reached with no
 	// calling context, continue at every call site's argument (bounded).
-	LiftParams  int
+	LiftParams int
 	// OpaqueInvokes: do not continue through receiver/arguments of interface
 	// method calls (default: continue, dependence over-approximation).
 	OpaqueInvokes bool
-	fieldStores map[FieldKey][]ssa.Value
-	globalStore map[*ssa.Global][]ssa.Value
+	// ThroughOutParams: a local whose address is passed to a call depends on
+	// that call's other operands (out-parameter / in-place update idiom).
+	ThroughOutParams bool
+	fieldStores      map[FieldKey][]ssa.Value
+	globalStore      map[*ssa.Global][]ssa.Value
 }
 
 // NewSlicer returns a slicer with defaults.
@@ -331,6 +334,20 @@ func (s *Slicer) walkAllocStores(a *ssa.Alloc, fr *frame, depth, lift int, seen 
 				scan(r, d+1)
 			case *ssa.IndexAddr:
 				scan(r, d+1)
+			case *ssa.Call:
+				// the object is handed by address to a call that may fill or
+				// update it: its content then depends on the call's other operands
+				if s.ThroughOutParams && d == 0 {
+					for _, a := range r.Call.Args {
+						if a != addr {
+							any = true
+							s.walk(a, fr, depth, lift, seen, visit, term)
+						}
+					}
+					if visit != nil {
+						visit(r)
+					}
+				}
 			}
 		}
 	}
